@@ -12,21 +12,23 @@ Open Scope N_scope.
 Record cext (s s' : bstate) (ls : list line) : Prop := mkCext {
   cx_code : b_code s' = b_code s ++ ls;
   cx_funcs : b_funcs s' = b_funcs s;
-  cx_fcnt : b_func_counter s' = b_func_counter s
+  cx_fcnt : b_func_counter s' = b_func_counter s;
+  cx_mono : (b_for_counter s <= b_for_counter s')%nat
 }.
 
 Lemma cext_refl s : cext s s [].
-Proof. constructor; [rewrite app_nil_r|..]; reflexivity. Qed.
+Proof. constructor; [rewrite app_nil_r; reflexivity|reflexivity|reflexivity|apply le_n]. Qed.
 Lemma cext_trans a b c x y : cext a b x -> cext b c y -> cext a c (x ++ y).
-Proof. intros [A1 A2 A3] [B1 B2 B3]. constructor; [rewrite B1, A1, app_assoc; reflexivity|congruence|congruence]. Qed.
-Lemma cext_of_ext s s' ls : ext s s' ls -> cext s s' ls.
-Proof. intros [A B C D E]. constructor; assumption. Qed.
+Proof. intros [A1 A2 A3 A4] [B1 B2 B3 B4]. constructor; [rewrite B1, A1, app_assoc; reflexivity|congruence|congruence|lia]. Qed.
+Lemma cext_of_ext s s' ls : ext s s' ls -> (b_for_counter s <= b_for_counter s')%nat -> cext s s' ls.
+Proof. intros [A B C D E] M. constructor; assumption. Qed.
 Lemma cext_line l s : cext s (add_line l s) [l].
-Proof. apply cext_of_ext, ext_add_line. Qed.
+Proof. apply cext_of_ext; [apply ext_add_line|apply le_n]. Qed.
 Lemma cext_lines2 a b s : cext s (add_line b (add_line a s)) [a; b].
 Proof. exact (cext_trans _ _ _ [a] [b] (cext_line a s) (cext_line b (add_line a s))). Qed.
-Lemma cext_same s s' : b_code s' = b_code s -> b_funcs s' = b_funcs s -> b_func_counter s' = b_func_counter s -> cext s s' [].
-Proof. intros A B C. constructor; [rewrite app_nil_r; exact A|exact B|exact C]. Qed.
+Lemma cext_same s s' : b_code s' = b_code s -> b_funcs s' = b_funcs s -> b_func_counter s' = b_func_counter s ->
+  (b_for_counter s <= b_for_counter s')%nat -> cext s s' [].
+Proof. intros A B C D. constructor; [rewrite app_nil_r; exact A|exact B|exact C|exact D]. Qed.
 
 Lemma user_name_cext s s' ls x : cext s s' ls -> user_name s' x = user_name s x.
 Proof. intros E. unfold user_name, var_name. rewrite (cx_funcs _ _ _ E), (cx_fcnt _ _ _ E). reflexivity. Qed.
@@ -44,6 +46,76 @@ Qed.
 
 Lemma code_same_cext s s' X Y : b_code s' = b_code s ++ X -> cext s s' Y -> X = Y.
 Proof. intros H E. rewrite (cx_code _ _ _ E) in H. apply app_inv_head in H. symmetry. exact H. Qed.
+
+(* ---- the loop counter never runs backwards (all statements, by the generic traversal theorem) ---- *)
+From Verif Require Import Back.TraverseInv Back.BatchLabels Back.NameFacts.
+
+Definition fc_ge (k : nat) (s : bstate) : Prop := (k <= b_for_counter s)%nat.
+
+Lemma fc_helper k mk s : fc_ge k s -> fc_ge k (snd (helper_assign mk s)).
+Proof. intro H. unfold helper_assign, next_helper. cbn [snd add_line b_for_counter]. exact H. Qed.
+
+Lemma fc_fold_params k (ps : list bytes) : forall (acc : bstate * nat), fc_ge k (fst acc) ->
+  fc_ge k (fst (fold_left (fun (acc : bstate * nat) p => let '(st, i) := acc in (add_line (LLocalParam (var_name st p false) i) st, S i)) ps acc)).
+Proof. induction ps as [|p r IH]; intros [st i] H; [exact H|]. cbn [fold_left]. apply IH. exact H. Qed.
+
+Lemma fc_fold_return k (vs : list atom) : forall (acc : bstate * nat), fc_ge k (fst acc) ->
+  fc_ge k (fst (fold_left (fun (acc : bstate * nat) v => let '(st, i) := acc in (add_line (LAssign (var_name st (rv_name i) true) (RAtom v)) st, S i)) vs acc)).
+Proof. induction vs as [|p r IH]; intros [st i] H; [exact H|]. cbn [fold_left]. apply IH. exact H. Qed.
+
+Lemma fc_fold_rets k (rets : list vtype) : forall (acc : list atom * bstate * nat), fc_ge k (snd (fst acc)) ->
+  fc_ge k (snd (fst (fold_left (fun (acc : list atom * bstate * nat) (_ : vtype) =>
+                                  let '(vs, st, i) := acc in
+                                  let '(h, st') := helper_assign (RAtom (ARef (rv_name i))) st in
+                                  (vs ++ [h], st', S i)) rets acc))).
+Proof.
+  induction rets as [|t r IH]; intros [[vs st] i] H; [exact H|]. cbn [fold_left].
+  destruct (helper_assign (RAtom (ARef (rv_name i))) st) as [h st'] eqn:E. apply IH. cbn [fst snd] in *.
+  pose proof (fc_helper k (RAtom (ARef (rv_name i))) st H) as Hh. rewrite E in Hh. exact Hh.
+Qed.
+
+Lemma fc_stmt k st : forall s u s', fc_ge k s -> t_stmt bash_conv st s = TOk u s' -> fc_ge k s'.
+Proof.
+  intros s u s' I0 H.
+  refine (t_stmt_preserves bash_conv (fc_ge k) (fun _ => true) _ _ _ _ _ _ _ _ _ _ _ _ _ _ _ _ _ _ _ _ _ _ _ _ _ _ _ _ _ _ _ _ _ _ _ _ st (names_ok_true st) s u s' I0 H);
+    clear; unfold fc_ge; cbn [bash_conv cv_string cv_var_definition cv_slice_assignment cv_func_start cv_func_end cv_return cv_if_start cv_if_end
+                cv_elseif_start cv_else_start cv_for_start cv_for_incr_start cv_for_incr_end cv_for_condition cv_for_end cv_break cv_continue
+                cv_print cv_panic cv_write_file cv_nop cv_unary cv_binary cv_comparison cv_logical cv_slice_instantiation cv_slice_evaluation
+                cv_slice_len cv_string_subscript cv_string_len cv_func_call cv_app_call cv_input cv_copy cv_exists cv_read_file].
+  all: try (intros; cbn [snd add_line set_flags b_for_counter]; assumption).
+  all: try (intros; match goal with H : _ = TOk _ _ |- _ => inversion H; subst; cbn [add_line b_for_counter]; assumption end).
+  - (* func_start *) intros n ps rs s _ I. apply (fc_fold_params _ ps (_, 1%nat)). exact I.
+  - (* func_end *) intros s u s' I H. destruct (b_funcs s); [discriminate|]. inversion H; subst. exact I.
+  - (* return *) intros vs s u s' I H. inversion H; subst. cbn [add_line b_for_counter]. apply (fc_fold_return _ vs (s, 0%nat)). exact I.
+  - (* for_start *) intros s I. cbn [add_line b_for_counter]. lia.
+  - (* for_incr_start *) intros s u s' I H. destruct (current_flag s); [|discriminate]. inversion H; subst. exact I.
+  - (* for_incr_end *) intros s u s' I H. destruct (current_flag s); [|discriminate]. inversion H; subst. exact I.
+  - (* for_end *) intros s u s' I H. destruct (b_fors s); [discriminate|]. inversion H; subst. exact I.
+  - (* binary *) intros l op r t s v s' I H. destruct (is_slice t); [discriminate|]. destruct (dt t); try discriminate.
+    + destruct (helper_assign _ s) as [h s1] eqn:E. inversion H; subst. pose proof (fc_helper _ (RArith l op r) s I) as Hh. rewrite E in Hh. exact Hh.
+    + destruct op; try discriminate. destruct (helper_assign _ s) as [h s1] eqn:E. inversion H; subst. pose proof (fc_helper _ (RConcat l r) s I) as Hh. rewrite E in Hh. exact Hh.
+  - (* comparison *) intros l op r t s v s' I H. destruct (cmp_text t op) as [o|]; [|discriminate].
+    destruct (helper_assign _ s) as [h s1] eqn:E. inversion H; subst. pose proof (fc_helper _ (RCompare l o r) s I) as Hh. rewrite E in Hh. exact Hh.
+  - (* slice_instantiation *) intros vs s I. destruct (helper_assign RNewSlice (add_line LDvcIncr s)) as [h s1] eqn:E. cbn [snd].
+    pose proof (fc_helper _ RNewSlice (add_line LDvcIncr s) I) as Hh. rewrite E in Hh. destruct vs; exact Hh.
+  - (* func_call *) intros n vs rs u s I. destruct u; [|exact I].
+    pose proof (fc_fold_rets _ rs ([], add_line (LCall n vs) s, 0%nat) I) as Hh.
+    destruct (fold_left _ rs ([], add_line (LCall n vs) s, 0%nat)) as [[vals s2] k0]. exact Hh.
+  - (* app_call *) intros cs u s I. destruct u; exact I.
+Qed.
+
+Theorem for_counter_mono st s u s' : t_stmt bash_conv st s = TOk u s' -> (b_for_counter s <= b_for_counter s')%nat.
+Proof. intro H. exact (fc_stmt (b_for_counter s) st s u s' (le_n _) H). Qed.
+
+Lemma expr_mono_any e used s vs s' : t_expr bash_conv e used s = TOk vs s' -> (b_for_counter s <= b_for_counter s')%nat.
+Proof.
+  intro H. destruct used.
+  - assert (t_stmt bash_conv (SPanic e) s = TOk tt (cv_panic bstate atom bash_conv (first_value bash_conv vs) s')) as Hp
+      by (cbn [t_stmt]; unfold mbind; rewrite H; reflexivity).
+    pose proof (for_counter_mono _ _ _ _ Hp) as M. rewrite bash_panic in M. exact M.
+  - assert (t_stmt bash_conv (SExpr e) s = TOk tt s') as Hp by (cbn [t_stmt]; unfold mbind; rewrite H; reflexivity).
+    exact (for_counter_mono _ _ _ _ Hp).
+Qed.
 
 (* ---- blocks all three skipping functions jump over as a whole ---- *)
 Definition dclosed (X : list line) : Prop := forall rest d, skip_done (X ++ rest) d = skip_done rest d.
@@ -81,7 +153,7 @@ Lemma e3_line l s : plain3 l = true -> emits3 s (add_line l s).
 Proof. intro H. exists [l]. split; [apply cext_line|]. split; [apply cl3_plain; cbn [forallb]; rewrite H; reflexivity|reflexivity]. Qed.
 Lemma e3_expr e used s vs s' : t_expr bash_conv e used s = TOk vs s' -> emits3 s s'.
 Proof.
-  intro H. destruct (t_expr_ok e used s vs s' H) as (ls & E & Hs & _). exists ls. split; [apply cext_of_ext; exact E|].
+  intro H. destruct (t_expr_ok e used s vs s' H) as (ls & E & Hs & _). exists ls. split; [apply cext_of_ext; [exact E|exact (expr_mono_any _ _ _ _ _ H)]|].
   split; [apply cl3_plain, simple_plain3, Hs|exact (x_fors _ _ _ E)].
 Qed.
 
@@ -164,6 +236,9 @@ Fixpoint frag2 (st : stmt) : bool :=
       && (fix ab (l : list (expr * list stmt)) : bool := match l with [] => true | cb :: r => pure (fst cb) && all (snd cb) && ab r end) elifs
       && all els
   | SFor init cond incr body => simple_opt init && pure cond && simple_opt incr && all body
+  | SAssignCall [_] (ECall _ [_] args) => forallb pure args      (* x = f(args): one result *)
+  | SVarDefCall [_] (ECall _ [_] args) => forallb pure args      (* x := f(args) *)
+  | SExpr (ECall _ _ args) => forallb pure args                  (* f(args) *)
   | _ => false
   end.
 Fixpoint frag2_all (l : list stmt) : bool := match l with [] => true | x :: r => frag2 x && frag2_all r end.
@@ -267,11 +342,27 @@ Qed.
 Lemma current_flag_after_start si : current_flag (cv_for_start bstate atom bash_conv si) = Some (flag_of si).
 Proof. rewrite bash_for_start. unfold current_flag, flag_of. cbn [add_line b_fors]. rewrite rev_app_distr. reflexivity. Qed.
 
+Lemma store_e3 vars : forall vals s u s', store_values bash_conv vars vals s = TOk u s' -> emits3 s s'.
+Proof.
+  induction vars as [|v r IH]; intros vals s u s' H; cbn [store_values] in H; [mr H; apply e3_refl|].
+  destruct vals as [|x xr]; [discriminate|]. mb H as u1 s1 H1 H2. mu H1. subst s1. rewrite bash_var_definition in H2.
+  eapply e3_trans; [|exact (IH _ _ _ _ H2)]. apply e3_line. reflexivity.
+Qed.
+
+Lemma assign_call_e3 vars call s u s' : t_stmt bash_conv (SAssignCall vars call) s = TOk u s' -> emits3 s s'.
+Proof.
+  intro Ht. cbn [t_stmt] in Ht. unfold assign_call in Ht. mb Ht as vs s1 H1 H2.
+  destruct (Nat.eqb (length vs) (length vars)); [|discriminate].
+  eapply e3_trans; [exact (e3_expr _ _ _ _ _ H1)|exact (store_e3 _ _ _ _ _ H2)].
+Qed.
+
 Theorem frag2_e3 : forall st, stmt_e3 st.
 Proof.
   induction st using AstInd.stmt_ind'; intro Hf; try discriminate; intros s u s' Ht.
   - (* SVarDef *) exact (simple_stmt_e3 (SVarDef vs es) s u s' Hf Ht).
+  - (* SVarDefCall *) change (t_stmt bash_conv (SVarDefCall vs c) s) with (t_stmt bash_conv (SAssignCall vs c) s) in Ht. exact (assign_call_e3 vs c s u s' Ht).
   - (* SAssign *) exact (simple_stmt_e3 (SAssign vs es) s u s' Hf Ht).
+  - (* SAssignCall *) exact (assign_call_e3 vs c s u s' Ht).
   - (* SIf *)
     destruct brs as [|[c0 b0] elifs]; [discriminate|]. rewrite frag2_if in Hf.
     apply andb_true_iff in Hf as [Hf Hfe]. apply andb_true_iff in Hf as [Hf Hfb]. apply andb_true_iff in Hf as [_ Hf0].
@@ -317,97 +408,119 @@ Proof.
       * rewrite (cx_code _ _ _ ER). rewrite bash_for_start. cbn [add_line b_code]. rewrite <- !app_assoc. reflexivity.
       * rewrite (cx_funcs _ _ _ ER). rewrite bash_for_start. reflexivity.
       * rewrite (cx_fcnt _ _ _ ER). rewrite bash_for_start. reflexivity.
+      * cbn [add_line b_for_counter]. pose proof (cx_mono _ _ _ ER) as M. rewrite bash_for_start in M. cbn [add_line b_for_counter] in M. lia.
     + cbn [add_line b_fors]. rewrite FR, <- Efs. apply removelast_last.
   - (* SBreak *) cbn [t_stmt] in Ht. rewrite bash_break in Ht. inversion Ht; subst. apply e3_line. reflexivity.
   - (* SContinue *) cbn [t_stmt] in Ht. rewrite bash_continue in Ht. inversion Ht; subst. apply e3_line. reflexivity.
   - (* SPrint *) exact (print_e3 es s u s' Ht).
+  - (* SExpr *) cbn [t_stmt] in Ht. mb Ht as vs s1 H1 H2. mr H2. exact (e3_expr _ _ _ _ _ H1).
 Qed.
 
-(* ---- the loop counter never runs backwards (all statements, by the generic traversal theorem) ---- *)
-From Verif Require Import Back.TraverseInv Back.BatchLabels.
 
-Definition fc_ge (k : nat) (s : bstate) : Prop := (k <= b_for_counter s)%nat.
-
-Lemma fc_helper k mk s : fc_ge k s -> fc_ge k (snd (helper_assign mk s)).
-Proof. intro H. unfold helper_assign, next_helper. cbn [snd add_line b_for_counter]. exact H. Qed.
-
-Lemma fc_fold_params k (ps : list bytes) : forall (acc : bstate * nat), fc_ge k (fst acc) ->
-  fc_ge k (fst (fold_left (fun (acc : bstate * nat) p => let '(st, i) := acc in (add_line (LLocalParam (var_name st p false) i) st, S i)) ps acc)).
-Proof. induction ps as [|p r IH]; intros [st i] H; [exact H|]. cbn [fold_left]. apply IH. exact H. Qed.
-
-Lemma fc_fold_return k (vs : list atom) : forall (acc : bstate * nat), fc_ge k (fst acc) ->
-  fc_ge k (fst (fold_left (fun (acc : bstate * nat) v => let '(st, i) := acc in (add_line (LAssign (var_name st (rv_name i) true) (RAtom v)) st, S i)) vs acc)).
-Proof. induction vs as [|p r IH]; intros [st i] H; [exact H|]. cbn [fold_left]. apply IH. exact H. Qed.
-
-Lemma fc_fold_rets k (rets : list vtype) : forall (acc : list atom * bstate * nat), fc_ge k (snd (fst acc)) ->
-  fc_ge k (snd (fst (fold_left (fun (acc : list atom * bstate * nat) (_ : vtype) =>
-                                  let '(vs, st, i) := acc in
-                                  let '(h, st') := helper_assign (RAtom (ARef (rv_name i))) st in
-                                  (vs ++ [h], st', S i)) rets acc))).
-Proof.
-  induction rets as [|t r IH]; intros [[vs st] i] H; [exact H|]. cbn [fold_left].
-  destruct (helper_assign (RAtom (ARef (rv_name i))) st) as [h st'] eqn:E. apply IH. cbn [fst snd] in *.
-  pose proof (fc_helper k (RAtom (ARef (rv_name i))) st H) as Hh. rewrite E in Hh. exact Hh.
-Qed.
-
-Lemma fc_stmt k st : forall s u s', fc_ge k s -> t_stmt bash_conv st s = TOk u s' -> fc_ge k s'.
-Proof.
-  intros s u s' I0 H.
-  refine (t_stmt_preserves bash_conv (fc_ge k) (fun _ => true) _ _ _ _ _ _ _ _ _ _ _ _ _ _ _ _ _ _ _ _ _ _ _ _ _ _ _ _ _ _ _ _ _ _ _ _ st (names_ok_true st) s u s' I0 H);
-    clear; unfold fc_ge; cbn [bash_conv cv_string cv_var_definition cv_slice_assignment cv_func_start cv_func_end cv_return cv_if_start cv_if_end
-                cv_elseif_start cv_else_start cv_for_start cv_for_incr_start cv_for_incr_end cv_for_condition cv_for_end cv_break cv_continue
-                cv_print cv_panic cv_write_file cv_nop cv_unary cv_binary cv_comparison cv_logical cv_slice_instantiation cv_slice_evaluation
-                cv_slice_len cv_string_subscript cv_string_len cv_func_call cv_app_call cv_input cv_copy cv_exists cv_read_file].
-  all: try (intros; cbn [snd add_line set_flags b_for_counter]; assumption).
-  all: try (intros; match goal with H : _ = TOk _ _ |- _ => inversion H; subst; cbn [add_line b_for_counter]; assumption end).
-  - (* func_start *) intros n ps rs s _ I. apply (fc_fold_params _ ps (_, 1%nat)). exact I.
-  - (* func_end *) intros s u s' I H. destruct (b_funcs s); [discriminate|]. inversion H; subst. exact I.
-  - (* return *) intros vs s u s' I H. inversion H; subst. cbn [add_line b_for_counter]. apply (fc_fold_return _ vs (s, 0%nat)). exact I.
-  - (* for_start *) intros s I. cbn [add_line b_for_counter]. lia.
-  - (* for_incr_start *) intros s u s' I H. destruct (current_flag s); [|discriminate]. inversion H; subst. exact I.
-  - (* for_incr_end *) intros s u s' I H. destruct (current_flag s); [|discriminate]. inversion H; subst. exact I.
-  - (* for_end *) intros s u s' I H. destruct (b_fors s); [discriminate|]. inversion H; subst. exact I.
-  - (* binary *) intros l op r t s v s' I H. destruct (is_slice t); [discriminate|]. destruct (dt t); try discriminate.
-    + destruct (helper_assign _ s) as [h s1] eqn:E. inversion H; subst. pose proof (fc_helper _ (RArith l op r) s I) as Hh. rewrite E in Hh. exact Hh.
-    + destruct op; try discriminate. destruct (helper_assign _ s) as [h s1] eqn:E. inversion H; subst. pose proof (fc_helper _ (RConcat l r) s I) as Hh. rewrite E in Hh. exact Hh.
-  - (* comparison *) intros l op r t s v s' I H. destruct (cmp_text t op) as [o|]; [|discriminate].
-    destruct (helper_assign _ s) as [h s1] eqn:E. inversion H; subst. pose proof (fc_helper _ (RCompare l o r) s I) as Hh. rewrite E in Hh. exact Hh.
-  - (* slice_instantiation *) intros vs s I. destruct (helper_assign RNewSlice (add_line LDvcIncr s)) as [h s1] eqn:E. cbn [snd].
-    pose proof (fc_helper _ RNewSlice (add_line LDvcIncr s) I) as Hh. rewrite E in Hh. destruct vs; exact Hh.
-  - (* func_call *) intros n vs rs u s I. destruct u; [|exact I].
-    pose proof (fc_fold_rets _ rs ([], add_line (LCall n vs) s, 0%nat) I) as Hh.
-    destruct (fold_left _ rs ([], add_line (LCall n vs) s, 0%nat)) as [[vals s2] k0]. exact Hh.
-  - (* app_call *) intros cs u s I. destruct u; exact I.
-Qed.
-
-Theorem for_counter_mono st s u s' : t_stmt bash_conv st s = TOk u s' -> (b_for_counter s <= b_for_counter s')%nat.
-Proof. intro H. exact (fc_stmt (b_for_counter s) st s u s' (le_n _) H). Qed.
 
 (* ---- names of flags; what a block may write ---- *)
 Definition fname (k : nat) : bytes := bs "_fv" ++ dec_nat k.
+
+Section WithCalls.
+(* ---- call statements: arguments, the call line, the copy of the return register ---- *)
+Definition args_fix :=
+  fix args_of (es : list expr) : M (St:=bstate) (list atom) :=
+    match es with
+    | [] => mret []
+    | a :: r => mbind (t_expr bash_conv a true) (fun va => mbind (args_of r) (fun vr => mret (first_value bash_conv va :: vr)))
+    end.
+
+Lemma args_as_pv : forall l s vs s', forallb pure l = true -> args_fix l s = TOk vs s' -> pv_fix l s = TOk vs s'.
+Proof.
+  induction l as [|e r IH]; intros s vs s' Hp H; [exact H|].
+  cbn [forallb] in Hp. apply andb_true_iff in Hp as [Hpe Hpr].
+  cbn [args_fix] in H. mb H as va s1 H1 H2. mb H2 as vr s2 H2 H3. mr H3.
+  destruct (pure_single e Hpe true s va s1 H1) as [a ->]. cbn [first_value].
+  cbn [pv_fix]. unfold mbind. rewrite H1. rewrite (IH s1 vr s' Hpr H2). reflexivity.
+Qed.
+
+Lemma call_decompose f rets args used s vs s' :
+  t_expr bash_conv (ECall f rets args) used s = TOk vs s' ->
+  exists va s1, args_fix args s = TOk va s1 /\
+    (if used && negb (Nat.eqb (length (fst (cv_func_call bstate atom bash_conv f va rets used s1))) (length rets)) then False
+     else cv_func_call bstate atom bash_conv f va rets used s1 = (vs, s')).
+Proof.
+  intro H. cbn [t_expr] in H. mb H as va s1 H1 H2. exists va, s1. split; [exact H1|].
+  mb H2 as res s2 H2 H3. unfold lift in H2. destruct (cv_func_call bstate atom bash_conv f va rets used s1) as [res0 s20] eqn:E.
+  inversion H2; subst res0 s20. cbn [fst]. destruct (used && negb (Nat.eqb (length res) (length rets))); [discriminate|]. mr H3. reflexivity.
+Qed.
+
+Lemma bash_call_used f va t s :
+  cv_func_call bstate atom bash_conv f va [t] true s =
+  ([ARef (helper_name s (b_var_counter s))],
+   snd (helper_assign (RAtom (ARef (rv_name 0))) (add_line (LCall f va) s))).
+Proof. reflexivity. Qed.
+
+Lemma call_used_decompose f t args s vs s' :
+  t_expr bash_conv (ECall f [t] args) true s = TOk vs s' ->
+  exists va s1, args_fix args s = TOk va s1 /\ vs = [ARef (helper_name s1 (b_var_counter s1))] /\
+                s' = snd (helper_assign (RAtom (ARef (rv_name 0))) (add_line (LCall f va) s1)).
+Proof.
+  intro H. destruct (call_decompose _ _ _ _ _ _ _ H) as (va & s1 & Ha & Hcv). exists va, s1. split; [exact Ha|].
+  rewrite bash_call_used in Hcv. cbn [fst length Nat.eqb negb andb] in Hcv. inversion Hcv. split; reflexivity.
+Qed.
+
+Lemma helper_assign_forc mk s a s' : helper_assign mk s = (a, s') -> b_for_counter s' = b_for_counter s.
+Proof. unfold helper_assign, next_helper. intro H. inversion H; subst. reflexivity. Qed.
+
+Lemma bash_call_unused f va rets s :
+  cv_func_call bstate atom bash_conv f va rets false s = (map (fun _ => ALit []) rets, add_line (LCall f va) s).
+Proof. reflexivity. Qed.
+
+(* what a function call does (see Sem/FlatLoop.v), the positional parameters of the function body being run, and the loop
+   counter at the start of the definition-free stretch of code we are in: functions called from it were translated
+   before it, so their loops have flags with smaller numbers *)
+Variable call : bytes -> list bytes -> shenv -> option (shenv * bytes).
+Variable pos : list bytes.
+Variable klo : nat.
+(* functions with a number below mlo may run while this stretch of code runs (they were defined before it) *)
+Variable mlo : nat.
+(* the source side of a call: function, argument values, environment -> result values, environment afterwards, output *)
+Variable scall : list var -> bytes -> list value -> senv -> list value -> senv -> bytes -> Prop.
 
 Lemma fname_not_helper s k j : fname k <> helper_name s j.
 Proof.
   unfold fname, helper_name, var_name. destruct ((0 <? b_funcs s)%nat && negb false); intro H; cbn in H; inversion H.
 Qed.
 
-Definition fresh_flags (XS : list var) (s : bstate) : Prop := forall x k, In x XS -> user_name s x <> fname k.
+Definition fresh_flags (XS : list var) (s : bstate) : Prop :=
+  (forall x k, In x XS -> user_name s x <> fname k) /\ (forall x i, In x XS -> user_name s x <> rv_name i) /\ (klo <= b_for_counter s)%nat /\
+  (forall x c y, In x XS -> (c < mlo)%nat -> user_name s x <> mangled c y).
 
+(* a block may write: the program's variables, the helpers of the current context, loop flags outside the protected
+   range [klo, loop counter), and -- through calls -- mangled names and return registers *)
 Definition untouched (XS : list var) (s : bstate) (b b' : shenv) : Prop :=
   forall n, (forall x, In x XS -> n <> user_name s x) -> (forall k, n <> helper_name s k) ->
-            (forall k, (b_for_counter s <= k)%nat -> n <> fname k) -> sh_get n b' = sh_get n b.
+            (forall k, (k < klo \/ b_for_counter s <= k)%nat -> n <> fname k) ->
+            (forall c x, (c < mlo)%nat -> n <> mangled c x) -> (forall i, n <> rv_name i) -> sh_get n b' = sh_get n b.
+
+(* the oracle refines the source side of calls: results arrive in the return registers, the caller's variables
+   (XS: also the globals the function may write) stay represented, nothing protected is written *)
+Definition call_refines : Prop :=
+  forall XS f vals sg rvals sg1 o b s,
+    scall XS f vals sg rvals sg1 o -> env_ok sg -> ctx_ok XS sg b s -> fresh_flags XS s ->
+    exists b1, call f (map text vals) b = Some (b1, o) /\ ctx_ok XS sg1 b1 s /\ untouched XS s b b1 /\
+               (forall i v, nth_error rvals i = Some v -> sh_get (rv_name i) b1 = text v).
+Hypothesis call_ok : call_refines.
 
 Lemma untouched_refl XS s b : untouched XS s b b.
-Proof. intros n _ _ _. reflexivity. Qed.
+Proof. intros n _ _ _ _ _. reflexivity. Qed.
 
 Lemma untouched_trans XS s s1 ls b b1 b2 :
   cext s s1 ls -> (b_for_counter s <= b_for_counter s1)%nat -> untouched XS s b b1 -> untouched XS s1 b1 b2 -> untouched XS s b b2.
 Proof.
-  intros E Hc U1 U2 n Hu Hh Hf. rewrite U2.
+  intros E Hc U1 U2 n Hu Hh Hf Hm Hr. rewrite U2.
   - apply U1; assumption.
   - intros x Hx. rewrite (user_name_cext _ _ _ x E). apply Hu. exact Hx.
   - intros k. rewrite (helper_name_cext _ _ _ k E). apply Hh.
   - intros k Hk. apply Hf. lia.
+  - exact Hm.
+  - exact Hr.
 Qed.
 
 (* assignment and print once more, with what they leave untouched *)
@@ -429,7 +542,7 @@ Proof.
   assert (ext s (add_line (LAssign n (RAtom a1)) s1) (l1 ++ [LAssign n (RAtom a1)])) as E2
     by (eapply ext_trans; [exact E1|apply ext_add_line]).
   exists (l1 ++ [LAssign n (RAtom a1)]), (sh_set n (atom_text b1 a1) b1).
-  split; [apply cext_of_ext; exact E2|].
+  split; [apply cext_of_ext; [exact E2|cbn [add_line b_for_counter]; exact (expr_mono_any _ _ _ _ _ H1)]|].
   split.
   { apply exec_outs_silent.
     - rewrite forallb_app, (exec_lines_no_echo l1 b b1 R1). reflexivity.
@@ -441,7 +554,13 @@ Proof.
     - rewrite sh_get_set_other.
       + rewrite F1; [exact (Hrep y w Hy Hw)|]. intros k _ Heq. exact (Hhy y k Hy Heq).
       + rewrite Hnn. intro Heq. rewrite (Hinj y x Hy Hx Heq) in Sv. discriminate. }
-  intros m Hu Hh _. rewrite sh_get_set_other; [|rewrite Hnn; apply Hu; exact Hx]. apply F1. intros k _. apply Hh.
+  intros m Hu Hh _ _ _. rewrite sh_get_set_other; [|rewrite Hnn; apply Hu; exact Hx]. apply F1. intros k _. apply Hh.
+Qed.
+
+Lemma pv_mono es : forall s vs s', pv_fix es s = TOk vs s' -> (b_for_counter s <= b_for_counter s')%nat.
+Proof.
+  induction es as [|e r IH]; intros s vs s' H; [mr H; apply le_n|].
+  cbn [pv_fix] in H. mb H as ve s1 H1 H2. mb H2 as vr s2 H2 H3. mr H3. pose proof (expr_mono_any _ _ _ _ _ H1). pose proof (IH _ _ _ H2). lia.
 Qed.
 
 Lemma print_step XS sg es s u s' b vals :
@@ -456,14 +575,14 @@ Proof.
   assert (ext s (add_line (LEcho (join [32] (map render_atom vs))) s1) (l1 ++ [LEcho (join [32] (map render_atom vs))])) as E2
     by (eapply ext_trans; [exact E1|apply ext_add_line]).
   exists (l1 ++ [LEcho (join [32] (map render_atom vs))]), b1.
-  split; [apply cext_of_ext; exact E2|].
+  split; [apply cext_of_ext; [exact E2|cbn [add_line b_for_counter]; exact (pv_mono _ _ _ _ H1)]|].
   split.
   { rewrite exec_outs_app, (exec_outs_silent l1 b b1 (exec_lines_no_echo l1 b b1 R1) R1).
     cbn [exec_outs exec_out]. rewrite (dq_join b1 vs Hok), V1. cbn [app]. rewrite app_nil_r. reflexivity. }
   split.
   { apply (ctx_ext XS _ _ s _ _ E2). constructor; [exact Cf| |exact Hhy|exact Hinj].
     intros x w Hx Hw. rewrite F1; [exact (Hrep x w Hx Hw)|]. intros k _ Heq. exact (Hhy x k Hx Heq). }
-  intros m _ Hh _. apply F1. intros k _. apply Hh.
+  intros m _ Hh _ _ _. apply F1. intros k _. apply Hh.
 Qed.
 
 (* ---- the source side: signals and loops ---- *)
@@ -484,6 +603,18 @@ Inductive J (XS : list var) : code -> senv -> senv -> bytes -> sig -> Prop :=
 | j_print sg es vals r sg' out g :
     forallb pure es = true -> (forall e, In e es -> side XS e) -> pevals sg es = Some vals ->
     J XS (Prog r) sg sg' out g -> J XS (Prog (SPrint es :: r)) sg sg' (join [32] (map text vals) ++ [10] ++ out) g
+| j_call_assign sg x f t args vals rv sg1 o r sg' out g :
+    forallb pure args = true -> (forall e, In e args -> side XS e) -> In x XS -> pevals sg args = Some vals ->
+    scall XS f vals sg [rv] sg1 o -> env_ok (supd sg1 x rv) ->
+    J XS (Prog r) (supd sg1 x rv) sg' out g -> J XS (Prog (SAssignCall [x] (ECall f [t] args) :: r)) sg sg' (o ++ out) g
+| j_call_define sg x f t args vals rv sg1 o r sg' out g :
+    forallb pure args = true -> (forall e, In e args -> side XS e) -> In x XS -> pevals sg args = Some vals ->
+    scall XS f vals sg [rv] sg1 o -> env_ok (supd sg1 x rv) ->
+    J XS (Prog r) (supd sg1 x rv) sg' out g -> J XS (Prog (SVarDefCall [x] (ECall f [t] args) :: r)) sg sg' (o ++ out) g
+| j_call_stmt sg f rets args vals rvals sg1 o r sg' out g :
+    forallb pure args = true -> (forall e, In e args -> side XS e) -> pevals sg args = Some vals ->
+    scall XS f vals sg rvals sg1 o -> env_ok sg1 ->
+    J XS (Prog r) sg1 sg' out g -> J XS (Prog (SExpr (ECall f rets args) :: r)) sg sg' (o ++ out) g
 | j_break sg r : frag2_all r = true -> J XS (Prog (SBreak :: r)) sg sg [] SB
 | j_continue sg r : frag2_all r = true -> J XS (Prog (SContinue :: r)) sg sg [] SC
 | j_if_next sg c0 b0 elifs els bools sgm outm r sg' out g :
@@ -520,10 +651,6 @@ Lemma J_env XS c sg sg' out g : J XS c sg sg' out g -> env_ok sg -> env_ok sg'.
 Proof. induction 1; intro He; auto. Qed.
 
 (* ---- the machine ---- *)
-Section WithCalls.
-Variable call : bytes -> list bytes -> shenv -> option (shenv * bytes).
-Variable pos : list bytes.
-
 Definition lruns (e : shenv) (L : list (list line)) (ls : list line) (res : shenv * bytes) : Prop := exists f, lrun call pos f false e L ls = Some res.
 Definition lseeks (e : shenv) (L : list (list line)) (ls : list line) (res : shenv * bytes) : Prop := exists f, lrun call pos f true e L ls = Some res.
 
@@ -568,7 +695,13 @@ Proof.
 Qed.
 
 Lemma fresh_cext XS s s' ls : cext s s' ls -> fresh_flags XS s -> fresh_flags XS s'.
-Proof. intros E H x k Hx. rewrite (user_name_cext _ _ _ x E). exact (H x k Hx). Qed.
+Proof.
+  intros E [H1 [H2 [H3 H4]]]. split; [|split; [|split]].
+  - intros x k Hx. rewrite (user_name_cext _ _ _ x E). exact (H1 x k Hx).
+  - intros x i Hx. rewrite (user_name_cext _ _ _ x E). exact (H2 x i Hx).
+  - pose proof (cx_mono _ _ _ E). lia.
+  - intros x c y Hx Hc. rewrite (user_name_cext _ _ _ x E). exact (H4 x c y Hx Hc).
+Qed.
 
 Definition simP (XS : list var) (sg : senv) (body : list stmt) (sg' : senv) (out : bytes) (g : sig) : Prop :=
   forall s u s' b, go_fix body s = TOk u s' -> frag2_all body = true -> env_ok sg -> ctx_ok XS sg b s -> fresh_flags XS s ->
@@ -617,6 +750,121 @@ Proof.
   replace (prepend (join [32] (map text vals) ++ [10] ++ out) res) with (prepend (join [32] (map text vals) ++ [10]) (prepend out res))
     by (rewrite prepend_app, <- app_assoc; reflexivity).
   exact (lruns_straight l1 b b1 _ L _ _ R1 (Hk L rest res H)).
+Qed.
+
+(* ---- call statements ---- *)
+Lemma lruns_call f args e e1 o1 L rest res :
+  call f (map (atom_text e) args) e = Some (e1, o1) -> lruns e1 L rest res -> lruns e L (LCall f args :: rest) (prepend o1 res).
+Proof. intros Hc [n Hn]. exists (S n). cbn [lrun]. rewrite Hc, Hn. destruct res; reflexivity. Qed.
+
+(* arguments, then the call line *)
+Lemma call_args XS sg f args s va s1 b vals rvals sg1 o :
+  forallb pure args = true -> args_fix args s = TOk va s1 -> pevals sg args = Some vals -> env_ok sg ->
+  (forall e, In e args -> side XS e) -> ctx_ok XS sg b s -> fresh_flags XS s -> scall XS f vals sg rvals sg1 o ->
+  exists l1 b2, cext s s1 l1 /\ ctx_ok XS sg1 b2 s1 /\ untouched XS s b b2 /\
+     (forall i v, nth_error rvals i = Some v -> sh_get (rv_name i) b2 = text v) /\
+     forall L rest res, lruns b2 L rest res -> lruns b L (l1 ++ [LCall f va] ++ rest) (prepend o res).
+Proof.
+  intros Hp Ha Hv Henv Hes Hc Hfl Hs. pose proof (args_as_pv _ _ _ _ Hp Ha) as Ha'.
+  destruct Hc as [Cf Hrep Hhy Hinj].
+  destruct (print_values args sg s va s1 b vals XS Hp Ha' Hv Henv Hes Cf Hrep Hhy) as (l1 & b1 & E1 & M1 & R1 & V1 & F1 & S1 & Hok).
+  assert (cext s s1 l1) as C1 by (apply cext_of_ext; [exact E1|exact (pv_mono _ _ _ _ Ha')]).
+  assert (ctx_ok XS sg b1 s1) as Hc1.
+  { apply (ctx_ext XS _ _ s _ _ E1). constructor; [exact Cf| |exact Hhy|exact Hinj].
+    intros x w Hx Hw. rewrite F1; [exact (Hrep x w Hx Hw)|]. intros k _ Heq. exact (Hhy x k Hx Heq). }
+  destruct (call_ok XS f vals sg rvals sg1 o b1 s1 Hs Henv Hc1 (fresh_cext _ _ _ _ C1 Hfl)) as (b2 & Hcall & Hc2 & U2 & Hrv).
+  exists l1, b2. split; [exact C1|]. split; [exact Hc2|]. split.
+  { intros n Hu Hh Hf Hm Hr. rewrite U2.
+    - apply F1. intros k _. apply Hh.
+    - intros x Hx. rewrite (user_name_cext _ _ _ x C1). apply Hu. exact Hx.
+    - intro k. rewrite (helper_name_cext _ _ _ k C1). apply Hh.
+    - intros k Hk. apply Hf. pose proof (cx_mono _ _ _ C1). lia.
+    - exact Hm.
+    - exact Hr. }
+  split; [exact Hrv|].
+  intros L rest res Hk. rewrite <- (prepend_nil (prepend o res)).
+  apply (lruns_straight l1 b b1 [] L).
+  - apply exec_outs_silent; [exact (exec_lines_no_echo l1 b b1 R1)|exact R1].
+  - cbn [app]. apply (lruns_call f va b1 b2 o L rest res); [rewrite V1; exact Hcall|exact Hk].
+Qed.
+
+Lemma simP_call_stmt XS sg f rets args vals rvals sg1 o r sg' out g :
+  forallb pure args = true -> (forall e, In e args -> side XS e) -> pevals sg args = Some vals ->
+  scall XS f vals sg rvals sg1 o -> env_ok sg1 ->
+  simP XS sg1 r sg' out g -> simP XS sg (SExpr (ECall f rets args) :: r) sg' (o ++ out) g.
+Proof.
+  intros Hp Hs Hv Hsc Henv1 IH s u s' b Ht Hf Henv Hc Hfl.
+  cbn [go_fix] in Ht. mb Ht as u1 sA H1 H2. cbn [frag2_all] in Hf. apply andb_true_iff in Hf as [_ Hfr].
+  cbn [t_stmt] in H1. mb H1 as vs0 sB H1 H3. mr H3.
+  destruct (call_decompose _ _ _ _ _ _ _ H1) as (va & s1 & Ha & Hcv). cbn [andb] in Hcv. rewrite bash_call_unused in Hcv. inversion Hcv; subst vs0 sA; clear Hcv.
+  destruct (call_args XS sg f args s va s1 b vals rvals sg1 o Hp Ha Hv Henv Hs Hc Hfl Hsc) as (l1 & b2 & C1 & Hc2 & U2 & _ & Hk1).
+  set (sA := add_line (LCall f va) s1) in *.
+  assert (cext s sA (l1 ++ [LCall f va])) as CA by (eapply cext_trans; [exact C1|apply cext_line]).
+  destruct (IH sA u s' b2 H2 Hfr Henv1 (ctx_cext _ _ _ _ _ _ (cext_line _ s1) Hc2) (fresh_cext _ _ _ _ CA Hfl)) as (X2 & b3 & E2 & C3 & U3 & Hk).
+  exists ((l1 ++ [LCall f va]) ++ X2), b3. split; [eapply cext_trans; eassumption|]. split; [exact C3|].
+  split; [exact (untouched_trans XS s sA _ b b2 b3 CA (cx_mono _ _ _ CA) U2 U3)|].
+  intros L rest res H. rewrite <- !app_assoc. rewrite <- prepend_app. apply Hk1. exact (Hk L rest res H).
+Qed.
+
+Lemma simP_call_assign XS sg x f t args vals rv sg1 o r sg' out g :
+  forallb pure args = true -> (forall e, In e args -> side XS e) -> In x XS -> pevals sg args = Some vals ->
+  scall XS f vals sg [rv] sg1 o -> env_ok (supd sg1 x rv) ->
+  simP XS (supd sg1 x rv) r sg' out g -> simP XS sg (SAssignCall [x] (ECall f [t] args) :: r) sg' (o ++ out) g.
+Proof.
+  intros Hp Hs Hx Hv Hsc Henv1 IH s u s' b Ht Hf Henv Hc Hfl.
+  cbn [go_fix] in Ht. mb Ht as u1 sA H1 H2. cbn [frag2_all] in Hf. apply andb_true_iff in Hf as [_ Hfr].
+  cbn [t_stmt] in H1. unfold assign_call in H1. mb H1 as vs0 sB H1 H3.
+  destruct (call_used_decompose _ _ _ _ _ _ H1) as (va & s1 & Ha & Hv0 & HsB). subst vs0.
+  set (s1c := add_line (LCall f va) s1) in *.
+  destruct (helper_assign (RAtom (ARef (rv_name 0))) s1c) as [ha sH] eqn:EH. cbn [snd] in HsB. subst sB.
+  cbn [length Nat.eqb] in H3. cbn [store_values] in H3. mb H3 as u2 sC Hst1 Hst2. mu Hst1. mr Hst2.
+  rewrite bash_var_definition in H2.
+  destruct (call_args XS sg f args s va s1 b vals [rv] sg1 o Hp Ha Hv Henv Hs Hc Hfl Hsc) as (l1 & b2 & C1 & Hc2 & U2 & Hrv & Hk1).
+  destruct (helper_assign_spec _ _ _ _ EH) as (_ & EHx & _).
+  set (hn := helper_name s1 (b_var_counter s1)) in *.
+  change (helper_name s1c (b_var_counter s1c)) with hn in EHx.
+  set (xn := var_name sH (v_name x) (v_global x)).
+  assert (cext s sH (l1 ++ [LCall f va] ++ [LAssign hn (RAtom (ARef (rv_name 0)))])) as CH.
+  { eapply cext_trans; [exact C1|]. eapply cext_trans; [apply cext_line|]. apply cext_of_ext; [exact EHx|]. rewrite (helper_assign_forc _ _ _ _ EH). apply le_n. }
+  assert (xn = user_name s x) as Hxn by (unfold xn; exact (user_name_cext _ _ _ x CH)).
+  assert (hn = helper_name s (b_var_counter s1)) as Hhn by (unfold hn; exact (helper_name_cext _ _ _ _ C1)).
+  set (sF := add_line (LAssign xn (RAtom (ARef hn))) sH) in *.
+  assert (cext s sF ((l1 ++ [LCall f va] ++ [LAssign hn (RAtom (ARef (rv_name 0)))]) ++ [LAssign xn (RAtom (ARef hn))])) as CF
+    by (eapply cext_trans; [exact CH|apply cext_line]).
+  set (b3 := sh_set hn (text rv) b2).
+  set (b4 := sh_set xn (text rv) b3).
+  destruct Hc2 as [Cf2 Hrep2 Hhy2 Hinj2].
+  assert (ctx_ok XS (supd sg1 x rv) b4 sF) as Hc4.
+  { apply (ctx_cext XS (supd sg1 x rv) b4 s1 sF ([LCall f va] ++ [LAssign hn (RAtom (ARef (rv_name 0)))] ++ [LAssign xn (RAtom (ARef hn))])).
+    - eapply cext_trans; [apply cext_line|]. eapply cext_trans; [apply cext_of_ext; [exact EHx|rewrite (helper_assign_forc _ _ _ _ EH); apply le_n]|apply cext_line].
+    - constructor; [exact Cf2| |exact Hhy2|exact Hinj2].
+      intros y w Hy Hw. unfold supd in Hw.
+      assert (xn = user_name s1 x) as Hxn1 by (rewrite Hxn; symmetry; exact (user_name_cext _ _ _ x C1)).
+      destruct (same_var y x) eqn:Sv.
+      + inversion Hw; subst w. unfold b4. rewrite (same_var_name s1 y x Sv), <- Hxn1, sh_get_set_same. reflexivity.
+      + unfold b4, b3. rewrite sh_get_set_other.
+        * rewrite sh_get_set_other; [exact (Hrep2 y w Hy Hw)|]. intro Heq. exact (Hhy2 y _ Hy Heq).
+        * rewrite Hxn1. intro Heq. rewrite (Hinj2 y x Hy Hx Heq) in Sv. discriminate. }
+  destruct (IH sF u s' b4 H2 Hfr Henv1 Hc4 (fresh_cext _ _ _ _ CF Hfl)) as (X2 & b5 & E2 & C5 & U5 & Hk).
+  exists (((l1 ++ [LCall f va] ++ [LAssign hn (RAtom (ARef (rv_name 0)))]) ++ [LAssign xn (RAtom (ARef hn))]) ++ X2), b5.
+  split; [eapply cext_trans; eassumption|]. split; [exact C5|].
+  split.
+  { apply (untouched_trans XS s sF _ b b4 b5 CF (cx_mono _ _ _ CF)); [|exact U5].
+    intros n Hu Hh Hf Hm Hr. unfold b4, b3. rewrite sh_get_set_other; [|rewrite Hxn; intro Heq; exact (Hu x Hx Heq)].
+    rewrite sh_get_set_other; [|rewrite Hhn; intro Heq; exact (Hh _ Heq)]. exact (U2 n Hu Hh Hf Hm Hr). }
+  intros L rest res H. rewrite <- !app_assoc. rewrite <- prepend_app. apply Hk1.
+  rewrite <- (prepend_nil (prepend out res)).
+  apply (lruns_straight [LAssign hn (RAtom (ARef (rv_name 0))); LAssign xn (RAtom (ARef hn))] b2 b4 [] L); [|exact (Hk L rest res H)].
+  cbn [exec_outs exec_out exec_line eval_rhs atom_text]. rewrite (Hrv 0%nat rv eq_refl). fold b3. unfold b4. replace (sh_get hn b3) with (text rv) by (unfold b3; rewrite sh_get_set_same; reflexivity). reflexivity.
+Qed.
+
+Lemma simP_call_define XS sg x f t args vals rv sg1 o r sg' out g :
+  forallb pure args = true -> (forall e, In e args -> side XS e) -> In x XS -> pevals sg args = Some vals ->
+  scall XS f vals sg [rv] sg1 o -> env_ok (supd sg1 x rv) ->
+  simP XS (supd sg1 x rv) r sg' out g -> simP XS sg (SVarDefCall [x] (ECall f [t] args) :: r) sg' (o ++ out) g.
+Proof.
+  intros Hp Hs Hx Hv Hsc Henv1 IH s u s' b Ht Hf. 
+  exact (simP_call_assign XS sg x f t args vals rv sg1 o r sg' out g Hp Hs Hx Hv Hsc Henv1 IH s u s' b Ht Hf).
 Qed.
 
 Lemma simP_break XS sg r : simP XS sg (SBreak :: r) sg [] SB.
@@ -780,8 +1028,8 @@ Proof.
   assert (map (atom_text bc) cs = map bool_text ts) as Vts'.
   { rewrite Vts. clear. induction ts as [|t r IH]; [reflexivity|]. cbn [map]. rewrite text_bool, IH. reflexivity. }
   assert (length ts = length elifs) as Lts by (rewrite <- Lcs; rewrite <- (map_length (atom_text bc) cs), Vts', map_length; reflexivity).
-  pose proof (cext_of_ext _ _ _ ELc) as CLc.
-  assert (untouched XS s b bc) as Uc by (intros n _ Hh _; apply Fc; intros k _; apply Hh).
+  assert (cext s sc Lc) as CLc by (apply cext_of_ext; [exact ELc|pose proof (expr_mono _ _ _ _ E0); pose proof (conds_mono _ _ _ _ Ec); lia]).
+  assert (untouched XS s b bc) as Uc by (intros n _ Hh _ _ _; apply Fc; intros k _; apply Hh).
   assert (ctx_ok XS sg bc sc) as Hcc.
   { apply (ctx_ext XS sg bc s sc Lc ELc). constructor; [exact Cf| |exact Ch|exact Ci].
     apply (represents_frame sg b bc s XS (b_var_counter s) Cr Ch). intros n Hn. apply Fc. intros k Hk. apply Hn. lia. }
@@ -847,25 +1095,27 @@ Proof. unfold flag_set. rewrite sh_get_set_same. reflexivity. Qed.
 Lemma ctx_set_flag XS sg b s k v : fresh_flags XS s -> ctx_ok XS sg b s -> ctx_ok XS sg (sh_set (fname k) v b) s.
 Proof.
   intros Hfl [A B C D]. constructor; [exact A| |exact C|exact D].
-  intros x w Hx Hw. rewrite sh_get_set_other; [exact (B x w Hx Hw)|exact (Hfl x k Hx)].
+  intros x w Hx Hw. rewrite sh_get_set_other; [exact (B x w Hx Hw)|exact (proj1 Hfl x k Hx)].
 Qed.
 
 Lemma untouched_weaken XS s0 s ls b b' : cext s0 s ls -> (b_for_counter s0 <= b_for_counter s)%nat -> untouched XS s b b' -> untouched XS s0 b b'.
 Proof.
-  intros E M U n Hu Hh Hf. apply U.
+  intros E M U n Hu Hh Hf Hm Hr. apply U.
   - intros x Hx. rewrite (user_name_cext _ _ _ x E). apply Hu. exact Hx.
   - intro k. rewrite (helper_name_cext _ _ _ k E). apply Hh.
   - intros k Hk. apply Hf. lia.
+  - exact Hm.
+  - exact Hr.
 Qed.
 
 Lemma untouched_set_flag XS s k v b : (b_for_counter s <= k)%nat -> untouched XS s b (sh_set (fname k) v b).
-Proof. intros Hk n _ _ Hf. rewrite sh_get_set_other; [reflexivity|exact (Hf k Hk)]. Qed.
+Proof. intros Hk n _ _ Hf _ _. rewrite sh_get_set_other; [reflexivity|apply (Hf k); right; exact Hk]. Qed.
 
 Lemma untouched_compose XS s b b1 b2 : untouched XS s b b1 -> untouched XS s b1 b2 -> untouched XS s b b2.
-Proof. intros U1 U2 n Hu Hh Hf. rewrite (U2 n Hu Hh Hf). exact (U1 n Hu Hh Hf). Qed.
+Proof. intros U1 U2 n Hu Hh Hf Hm Hr. rewrite (U2 n Hu Hh Hf Hm Hr). exact (U1 n Hu Hh Hf Hm Hr). Qed.
 
 Lemma for_start_cext si : cext si (cv_for_start bstate atom bash_conv si) [LForInit (flag_of si); LWhile].
-Proof. rewrite bash_for_start. constructor; cbn [add_line b_code b_funcs b_func_counter]; [rewrite <- app_assoc; reflexivity|reflexivity|reflexivity]. Qed.
+Proof. rewrite bash_for_start. constructor; cbn [add_line b_code b_funcs b_func_counter b_for_counter]; [rewrite <- app_assoc; reflexivity|reflexivity|reflexivity|lia]. Qed.
 
 Lemma for_start_counter si : b_for_counter (cv_for_start bstate atom bash_conv si) = S (b_for_counter si).
 Proof. rewrite bash_for_start. reflexivity. Qed.
@@ -984,10 +1234,10 @@ Proof.
   pose proof (expr_preserve cond Hfc sg1 true sn vc sc bF (VBool t) Ec Hv Henv1 Hl (represents_incl _ _ _ _ _ Cr Hi) (hygienic_incl _ _ _ Ch Hi))
     as [lc a bc O1 E1 M1 R1 V1 F1 S1].
   exists (Rn ++ lc), bc, a. subst vc. cbn [first_value] in *.
-  pose proof (cext_of_ext _ _ _ E1) as CE1.
+  assert (cext sn sc lc) as CE1 by (apply cext_of_ext; [exact E1|exact (expr_mono _ _ _ _ Ec)]).
   split; [rewrite <- app_assoc; eapply cext_trans; [exact ERn|]; eapply cext_trans; [exact CE1|apply cext_line]|].
   split; [apply cl3_app; [exact CRn|]; destruct (t_expr_ok cond true sn [a] sc Ec) as (ls & E & Hs & _);
-          rewrite (code_same_cext _ _ _ _ (x_code _ _ _ E1) (cext_of_ext _ _ _ E)); apply cl3_plain, simple_plain3, Hs|].
+          rewrite (code_same_cext _ _ _ _ (x_code _ _ _ E1) (cext_of_ext _ _ _ E (expr_mono _ _ _ _ Ec))); apply cl3_plain, simple_plain3, Hs|].
   split; [reflexivity|].
   assert (ctx_ok XS sg1 bc sc) as Hcc.
   { apply (ctx_ext XS sg1 bc sn sc lc E1). constructor; [exact Cf| |exact Ch|exact Ci].
@@ -995,7 +1245,7 @@ Proof.
   split; [exact (ctx_cext _ _ _ _ _ _ (cext_line _ sc) Hcc)|].
   assert (forall n, (forall k, n <> helper_name sn k) -> sh_get n bc = sh_get n bF) as Fr by (intros n Hh; apply F1; intros k _; apply Hh).
   split.
-  { apply (untouched_compose XS si b bF); [exact UF|]. intros n _ Hh _. apply Fr. intro k.
+  { apply (untouched_compose XS si b bF); [exact UF|]. intros n _ Hh _ _ _. apply Fr. intro k.
     rewrite (helper_name_cext _ _ _ k (cext_trans _ _ _ _ _ (for_start_cext si) ERn)). apply Hh. }
   split; [rewrite text_bool in V1; exact (cond_of_text bc a t V1)|].
   split; [pose proof (expr_mono _ _ _ _ Ec); lia|].
@@ -1084,11 +1334,13 @@ Proof.
   (* the next rounds start from the environment the body left *)
   assert (ctx_ok XS sg2 b3 (cv_for_start bstate atom bash_conv si)) as Hc3 by exact (ctx_cext_rev _ _ _ _ _ _ ER Cc3).
   assert (incr <> None -> flag_set b3 (fname (b_for_counter si)) = negb false) as Hflag3.
-  { intro Hi. specialize (Hf2 Hi). cbn [negb]. unfold flag_set in *. rewrite U3; [exact Hf2| | |].
-    - intros x Hx. intro Heq. exact (HflB x (b_for_counter si) Hx (eq_sym Heq)).
+  { intro Hi. specialize (Hf2 Hi). cbn [negb]. unfold flag_set in *. rewrite U3; [exact Hf2| | | | |].
+    - intros x Hx. intro Heq. exact (proj1 HflB x (b_for_counter si) Hx (eq_sym Heq)).
     - intro k. apply fname_not_helper.
     - intros k Hk0 Heq. unfold fname in Heq. apply app_inv_head in Heq. unfold dec_nat in Heq. apply dec_N_inj in Heq. apply Nat2N.inj in Heq.
-      unfold sB in Hk0. cbn [add_line b_for_counter] in Hk0. lia. }
+      destruct Hfl as [_ [_ [Hklo _]]]. unfold sB in Hk0. cbn [add_line b_for_counter] in Hk0. lia.
+    - intros c x _ Heq. unfold fname, mangled in Heq. cbn in Heq. inversion Heq.
+    - intros i Heq. unfold fname, rv_name in Heq. cbn in Heq. inversion Heq. }
   destruct (Hnext si sn sc sd vc b3 LT Hside Henv2 Hc3 Hfl Hflag3) as (R' & b' & ER' & CR' & Cc' & U' & Hk').
   assert (R' = H ++ [LBreakUnless a] ++ B) as -> by exact (code_same_cext _ _ _ _ (cx_code _ _ _ ER') ER).
   exists (H ++ [LBreakUnless a] ++ B), b'.
@@ -1163,7 +1415,7 @@ Proof.
                b_for_counter := b_for_counter (add_line LDone sd); b_fors := removelast (b_fors (add_line LDone sd)); b_funcs := b_funcs (add_line LDone sd);
                b_func_counter := b_func_counter (add_line LDone sd); b_sah := b_sah (add_line LDone sd); b_sch := b_sch (add_line LDone sd);
                b_ssh := b_ssh (add_line LDone sd) |}) in *.
-  assert (cext sd sE [LDone]) as EE by (constructor; reflexivity).
+  assert (cext sd sE [LDone]) as EE by (constructor; try reflexivity; apply le_n).
   assert (cext s sE (X0 ++ [LForInit (flag_of si); LWhile] ++ R ++ [LDone])) as EsE
     by (eapply cext_trans; [exact E0|]; eapply cext_trans; [apply for_start_cext|]; eapply cext_trans; [exact ER|exact EE]).
   assert (b_for_counter s <= b_for_counter sE)%nat as ME by exact (for_counter_mono _ _ _ _ H1).
@@ -1192,7 +1444,11 @@ Theorem J_sim : forall XS c sg sg' out g, J XS c sg sg' out g -> env_ok sg -> si
 Proof.
   intros XS c sg sg' out g H.
   induction H as [sg|sg x e v r sg' out g Hp Hs Hx Hv Henv' Hr IH|sg x e v r sg' out g Hp Hs Hx Hv Henv' Hr IH
-                 |sg es vals r sg' out g Hp Hs Hv Hr IH|sg r Hfr|sg r Hfr
+                 |sg es vals r sg' out g Hp Hs Hv Hr IH
+                 |sg x f t args vals rv sg1 o r sg' out g Hp Hs Hx Hv Hsc Henv' Hr IH
+                 |sg x f t args vals rv sg1 o r sg' out g Hp Hs Hx Hv Hsc Henv' Hr IH
+                 |sg f rets args vals rvals sg1 o r sg' out g Hp Hs Hv Hsc Henv' Hr IH
+                 |sg r Hfr|sg r Hfr
                  |sg c0 b0 elifs els bools sgm outm r sg' out g Hfrag Hside Hv Hch IHch Hr IHr
                  |sg c0 b0 elifs els bools sgm outm r g Hfrag Hside Hv Hch IHch Hg Hfr
                  |sg init cond incr body sg1 o1 sg2 o2 r sg' out g Hfrag Hside Hi IHi Hl IHl Hr IHr
@@ -1205,6 +1461,9 @@ Proof.
   - intros s u s' b Ht. change (go_fix (SVarDef [x] [e] :: r) s) with (go_fix (SAssign [x] [e] :: r) s) in Ht.
     revert s u s' b Ht. exact (simP_assign XS sg x e v r sg' out g Hp Hs Hx Hv Henv' (IH Henv')).
   - exact (simP_print XS sg es vals r sg' out g Hp Hs Hv (IH Henv)).
+  - exact (simP_call_assign XS sg x f t args vals rv sg1 o r sg' out g Hp Hs Hx Hv Hsc Henv' (IH Henv')).
+  - exact (simP_call_define XS sg x f t args vals rv sg1 o r sg' out g Hp Hs Hx Hv Hsc Henv' (IH Henv')).
+  - exact (simP_call_stmt XS sg f rets args vals rvals sg1 o r sg' out g Hp Hs Hv Hsc Henv' (IH Henv')).
   - apply simP_break.
   - apply simP_continue.
   - pose proof (J_env _ _ _ _ _ _ Hch Henv) as Henvm. exact (simP_if_next XS sg c0 b0 elifs els bools sgm outm r sg' out g Hfrag Hside Hv (IHch Henv) Henvm (IHr Henvm)).
